@@ -17,9 +17,6 @@ EXCEPTIONS = {
 
 
 SRC_EXCEPTIONS = {
-    ("xattr_reader_copy", "memcpy", 0):
-        "copy of the whole id_block_starts table: length sizeof(u64) * num_id_blocks is the very product the table was "
-        "allocated with (alloc_array(sizeof(u64), num_id_blocks)); offset 0",
 }
 
 
@@ -35,6 +32,90 @@ def anchored_files():
         if p["id"] == "C05":
             return set(p["anchors"]["files"])
     raise AnalysisBroken("property C05 not found")
+
+
+def descent_rule(chk, prog):
+    """K1-loop (iterator side): an implementation of sqfs_dir_iterator_t.open_subdir that opens a directory of the image
+    (it reaches sqfs_dir_reader_open_dir) first compares the identity of the directory it is about to enter with the
+    directories it came through: a loop over stored identities with an equality test whose match leads to a failing
+    return, placed so that the opening call cannot be reached without passing it.  Without it a directory that contains
+    one of its own ancestors is descended into forever (sqfs2tar)."""
+    impls = prog.slot_impls(("struct.sqfs_dir_iterator_t", "open_subdir"))
+    opener = prog.fn("sqfs_dir_reader_open_dir")
+    if opener is None:
+        raise AnalysisBroken("sqfs_dir_reader_open_dir not found")
+    reach_cache = {}
+
+    def reaches_opener(f, depth=0):
+        if f in reach_cache:
+            return reach_cache[f]
+        reach_cache[f] = False
+        if f is opener:
+            reach_cache[f] = True
+            return True
+        if f.decl or depth > 4:
+            return False
+        f.build()
+        for c in f.calls():
+            if c.callee is None:
+                continue          # slot calls: delegation to another iterator, which has its own obligation
+            t = prog.fn(c.callee, f.unit)
+            if t is not None and reaches_opener(t, depth + 1):
+                reach_cache[f] = True
+                return True
+        return False
+
+    n = 0
+    for f in sorted(impls, key=lambda x: x.name):
+        if f.decl or not reaches_opener(f):
+            continue
+        f.build()
+        n += 1
+        chk.analysed(f)
+        creates = [c for c in f.calls() if c.callee and prog.fn(c.callee, f.unit) is not None and
+                   reaches_opener(prog.fn(c.callee, f.unit))]
+        ok = False
+        for (h, body) in f.loops:
+            if not all(f.dominates(h, c.bb) for c in creates):
+                continue
+            bodyvals = set(id(i) for b in body for i in b.insts)
+            for b in body:
+                t = b.term
+                if not (t.op == "br" and len(t.x["succ"]) == 2 and t.ops[0].is_inst and t.ops[0].op == "icmp" and
+                        t.ops[0].pred == "eq"):
+                    continue
+                a, b2 = t.ops[0].ops
+                va = a.is_inst and id(a) in bodyvals and a.op == "load"
+                vb = b2.is_inst and id(b2) in bodyvals and b2.op == "load"
+                if not (va or vb):
+                    continue
+                # the match leads to a failing return without creating anything
+                hit = t.x["succ"][0]
+                seen, stack, fails = set(), [hit], False
+                bad = False
+                while stack:
+                    x = stack.pop()
+                    if x in seen:
+                        continue
+                    seen.add(x)
+                    if any(c.bb is x for c in creates):
+                        bad = True
+                    if x.term.op == "ret":
+                        fails = True
+                    stack.extend(s_ for s_ in x.succs if s_ not in body or True)
+                if fails and not bad:
+                    ok = True
+        inst = "%s:ancestor-check" % f.name
+        if ok:
+            chk.ok("K1-loop", inst, creates[0] if creates else f, "the directory about to be entered is compared with the ones "
+                   "it was reached through before it is opened")
+        else:
+            chk.violation("K1-loop", inst, creates[0] if creates else f, "%s opens a sub directory of the image without comparing it "
+                          "with the directories it was reached through: a directory that contains one of its own ancestors "
+                          "is descended into forever" % f.name)
+    if n == 0:
+        chk.broke("no implementation of sqfs_dir_iterator_t.open_subdir opens image directories")
+    return n
 
 
 def loop_guard_rule(chk, prog):
@@ -232,6 +313,7 @@ def run(chk):
     run_k6_src(chk, prog, files, SRC_EXCEPTIONS, "K6-src")
     chk.floor("K6-src", 6)
     loop_guard_rule(chk, prog)
+    descent_rule(chk, prog)
     table_window_rule(chk, prog)
     super_sanity_rule(chk, prog)
     alloc_size_rule(chk, prog, files)
@@ -243,7 +325,7 @@ def run(chk):
                  lambda src: src.startswith(("lib/sqfs/", "lib/common/", "lib/util/", "bin/rdsquashfs/", "bin/sqfs2tar/", "bin/sqfsdiff/"))
                  and "/test/" not in src, DANGLING_EXCEPTIONS)
     chk.floor("K6", 100)
-    chk.floor("K1-loop", 2)
+    chk.floor("K1-loop", 3)
     chk.floor("K13-window", 6)
     chk.floor("K1-super", 6)
     chk.floor("K13-alloc", 15)
